@@ -38,9 +38,9 @@ def load():
             pass
     _filtered("c09", "bus")
     _filtered("c08", "pair")
+    _filtered("c07", "survey")
+    _filtered("c04rep", "rep")
     _filtered("c04req", "req")
-    for mod, label in [("c04rep", "rep"), ("c07", "survey")]:
-        _try(mod, "history", label)
     return PROVIDERS
 
 
